@@ -5,6 +5,7 @@
 //!   cancel <val>         cancel the handle returned by the add that carried payload <val> (once);
 //!                        the transcript names it by the index k of that successful add
 //!   fetch
+//!   peek                 next_time(): read-only
 //! Transcript lines carry absolute nanoseconds and what the implementation answered:
 //!   add <abs> <val> -> ok|panic len=<len> time=<time()>
 //!   cancel <k> -> ok len=.. time=..
@@ -73,6 +74,9 @@ pub fn gen(seed: u64, count: usize, thorough: bool, tie_heavy: bool) -> String {
                     writeln!(out, "cancel {}", vals[k as usize]).unwrap();
                 }
             } else {
+                if r.chance(1, 3) {
+                    writeln!(out, "peek").unwrap();
+                }
                 writeln!(out, "fetch").unwrap();
             }
         }
@@ -126,6 +130,11 @@ pub fn exec(input: &str) -> String {
                         None => continue, // never issued or already consumed: no call possible
                     }
                 }
+                ["peek"] => match guarded(|| q.next_time()) {
+                    Ok(Some(t)) => write!(res, "peek -> {}", t.as_nanos()).unwrap(),
+                    Ok(None) => write!(res, "peek -> none").unwrap(),
+                    Err(_) => write!(res, "peek -> panic").unwrap(),
+                },
                 ["fetch"] => match guarded(|| q.fetch_next()) {
                     Ok((v, time)) => {
                         cur = time.as_nanos() as i128;
